@@ -49,7 +49,7 @@ def specs_for(ctx):
     n_worlds = 60 if ctx.quick else 1500
     for _ in range(n_worlds):
         w = random_world(rng)
-        ep = RuleEpisode(w, render=rng.choice(["ident", "clean"]))
+        ep = RuleEpisode(w, render=rng.choice(["ident", "clean", "adv", "adv2"]))
         for rule in rc.sampled_rules(rng, w.modules, 60, max_batch=3):
             ep.eval(rule, single_as_string=rng.random() < 0.5)
         specs.append(ep.spec)
